@@ -211,6 +211,21 @@ def run_pipe(spec, res):
             p = programs.random_program(rng, 5, sources=srcs)
             if not any(op[0] in excluded for op in p['ops']):
                 yield p
+        # seeded per-epoch shuffles below the parallel stage (every build gets a
+        # fresh, equally seeded generator, so the plain pipeline is the twin)
+        RND = [('reshuffle', 3), ('reshuffle', 11), ('localshuffle', 3, 5)]
+        tails = [[], [('tile', 2)], [('concat', 'self')], [('map', 'f')],
+                 [('batch', 2, False)], [('tile', 3), ('map', 'g')],
+                 [('concat', 'selfmap')], [('items',)]]
+        # (zip / intersperse of a reshuffle with itself iterate one dataset
+        # object twice at the same time: the plain pipeline is then subject to
+        # the known finding C12-reshuffle-shared-permutation and is no reference)
+        heads = [[], [('map', 'f')], [('slice', 'slice', (None, None, -1))]]
+        for src in srcs[:2] + [('dict', 8, 'pickle')]:
+            for h in heads:
+                for r in RND:
+                    for t in tails:
+                        yield {'src': src, 'ops': h + [r] + t}
     variants = [('prefetch(2,2,t)', lambda d: d.prefetch(2, 2, 't'), True),
                 ('prefetch(3,4,t)', lambda d: d.prefetch(3, 4, 't'), True),
                 ('prefetch(1,2)', lambda d: d.prefetch(1, 2), False),
@@ -225,10 +240,16 @@ def run_pipe(spec, res):
             with ob.watchdog(20):
                 want = list(programs.build(ld, prog))
                 for name, wrap, needs_index in variants:
-                    if needs_index and not (m.indexable and m.sized and m.copyable):
+                    if needs_index and not (getattr(m, 'findexable', m.indexable)
+                                            and m.sized and m.copyable):
                         continue
                     base = programs.build(ld, prog)
-                    ref = want if 'map(g' not in name else [('g', v) for v in want]
+                    # the plain twin, epoch by epoch (matters for seeded shuffles)
+                    twin = programs.build(ld, prog)
+                    e1, e2 = list(twin), list(twin)
+                    if 'map(g' in name:
+                        e1, e2 = [('g', v) for v in e1], [('g', v) for v in e2]
+                    ref = e1
                     try:
                         ds = wrap(base)
                         got = list(ds)
@@ -241,10 +262,11 @@ def run_pipe(spec, res):
                         continue
                     res.count('pipeline_transparency_comparisons')
                     res.case(('pipe', repr(prog), name), m.n >= 2)
-                    if got != ref or got2 != ref:
+                    if got != e1 or got2 != e2:
                         res.violation('delivered-sequence-differs',
                                       {**case, 'stage': name},
-                                      {'delivered': got, 'second': got2, 'want': ref},
+                                      {'delivered': got, 'second': got2, 'want': e1,
+                                       'want_second': e2},
                                       sig={'entry': 'pipeline', 'stage': name.split('(')[0]})
                         continue
                     if m.sized:
